@@ -19,14 +19,15 @@ if which in ("fixes", "both"):
         print("| %s | %s | %s |" % (m.group(2), m.group(1), m.group(3).replace("|", "\\|")))
     print()
 if which in ("seeded", "both"):
-    print("| seeded change | site | needs | detected by (quick tier) | history |"); print("|---|---|---|---|---|")
+    print("| seeded change | site | what was changed | detected by (quick tier) | at first run? |"); print("|---|---|---|---|---|")
     for p in sorted(glob.glob(os.path.join(ROOT, "seeded", "*", "*", "meta.json"))):
         d = json.load(open(p)); rel = os.path.relpath(os.path.dirname(p), ROOT)
         laws = []
         for k, v in d.get("checks", {}).items():
             if v["exit"] == 1:
-                laws.append("%s: %s" % (k.split("/")[0], ", ".join(v["laws"][:3])))
+                laws.append("%s: %s" % (k.split("/")[0], ", ".join(v["laws"][:2])))
         det = "; ".join(laws) if laws else "NOT DETECTED"
-        hist = d.get("history", "detected at first run")
-        hist = "first missed, then: " + hist.split(";", 1)[-1].strip() if hist.startswith("initially MISSED") else hist
-        print("| %s | %s | %s | %s | %s |" % (rel, d.get("site", "").replace("geometry_tools/", ""), d.get("needs", "")[:160].replace("|", "\\|").replace("\n", " "), det, hist[:260]))
+        hist = d.get("history", "")
+        first = "no - see meta.json: " + hist.split(";", 1)[-1].strip()[:200] if hist.startswith("initially MISSED") else "yes"
+        print("| %s | %s | %s | %s | %s |" % (rel, d.get("site", "").replace("geometry_tools/", ""),
+              str(d.get("title", ""))[:150].replace("|", "\\|").replace("\n", " "), det, first))
